@@ -303,6 +303,8 @@ def run(ix, R):
         _o, _i, cfl = closure_flow(ix, site, 'sample_iter')
         ys_ = cfl.of('yield')
         part_ok = False
+        if not ys_ or not ys_[0].loops:
+            raise AnalysisError('the loop of the sample iterator is not found')
         if ys_ and ys_[0].loops:
             ia_ = atom_of(cfl, ys_[0].loops[0].iter_rf[0])
             bres = [e.value for e in _o.of('assign') if isinstance(e.value, RF) and atom_of(_o, e.value) is not None and
@@ -494,6 +496,12 @@ def run(ix, R):
             raise AnalysisError('expected two loops')
         l1, l2 = lps
         why = []
+        # the shape this rule reads: a first pass over zip(averages, counts) that builds the pooled mean, a second over
+        # zip(averages, counts', variance) that builds the pooled squares; anything else is not decided here
+        if len(l1.iter_rf) != 2 or not fl.tab.equal(l1.iter_rf[0], pe['A']) or not fl.tab.equal(l1.iter_rf[1], pe['C']) or \
+                len(l2.iter_rf) != 3 or not fl.tab.equal(l2.iter_rf[0], pe['A']) or not fl.tab.equal(l2.iter_rf[2], pe['V']):
+            raise AnalysisError('the two accumulation loops over zip(averages, counts) and zip(averages, counts, variance) '
+                                'are not found: %s / %s' % (unparse(l1.iter_ast)[:60], unparse(l2.iter_ast)[:60]))
         a1 = fl.tab.atom('elem', (pe['A'], l1.index))
         c1 = fl.tab.atom('elem', (pe['C'], l1.index))
         # the accumulators are identified by what is added to them, not by their names
@@ -555,27 +563,49 @@ def run(ix, R):
                 'pooled mean = sum c_i m_i / sum c_i; pooled variance = sum c_i (v_i + (m_i - m)^2) / sum c_i',
                 not why, key='; '.join(why), detail='; '.join(why), loc=f.loc())
         # placeholder handling uses a value test, and zero-weight ranks are skipped
+        # stated on the accumulating statements: the conditions under which each one runs (enclosing tests and the
+        # `continue`s before it), whatever form the skipping takes
         skips = [e for e in fl.of('continue')]
-        def zero_weight(e):
-            lp = e.loops[-1] if e.loops else None
-            if lp is None or len(e.guards) != 1 or not e.guards[0].positive:
-                return False
+
+        def cond_kind(g, lp):
             c = fl.tab.atom('elem', ((pe['C'] if lp is l1 else cprime), lp.index))
-            if guard_is(fl, e.guards[0], spec(fl, 'c == 0', {'c': c}), True):
-                return True
-            # in the mean loop a rank whose mean is the placeholder contributes nothing either way
             a_ = fl.tab.atom('elem', (pe['A'], lp.index))
-            return lp is l1 and guard_is(fl, e.guards[0], spec(fl, '_or(c == 0, _missing(a))', {'c': c, 'a': a_}), True)
-        oks = len(skips) == 2 and all(zero_weight(e) for e in skips)
-        # the between-rank term must not depend on whether the rank has a variance yet
+            v_ = fl.tab.atom('elem', (pe['V'], lp.index)) if lp is l2 else None
+            if g.rf is None:
+                return 'other'
+            # (weights are sums of non-negative sample weights: `c > 0` is `not c == 0`)
+            if guard_is(fl, g, spec(fl, 'c > 0', {'c': c}), True):
+                return 'zero-'
+            for cond, label in ((spec(fl, 'c == 0', {'c': c}), 'zero'), (spec(fl, '_missing(a)', {'a': a_}), 'missing-mean'),
+                                (spec(fl, '_or(c == 0, _missing(a))', {'c': c, 'a': a_}), 'zero-or-missing-mean')) + \
+                    (((spec(fl, '_missing(v)', {'v': v_}), 'missing-var'),) if v_ is not None else ()):
+                if guard_is(fl, g, cond, True):
+                    return label + '+'
+                if guard_is(fl, g, cond, False):
+                    return label + '-'
+            at_ = atom_of(fl, g.rf)
+            if at_ is not None and at_.head == 'cmp' and at_.extra in (('Is',), ('IsNot',)) and 'None' in fmt(fl, g.rf):
+                return 'first'          # `acc is None`: the first term is assigned, the others added
+            return 'other'
+        oks = True
+        odd = []
         dev_ev = [e for e in sq if not fl.tab.equal(e.value, c2 * v2)]
-        for e in dev_ev:
-            for g in e.guards:
-                if g.rf is not None and g.rf.mentions(lambda a: a.head == 'elem' and fl.tab.equal(a.args[0], pe['V'])):
+        var_ev = [e for e in sq if fl.tab.equal(e.value, c2 * v2)]
+        for evs_, lp_, allowed in ((acc, l1, {'zero-', 'missing-mean-', 'zero-or-missing-mean-', 'first'}),
+                                   (dev_ev, l2, {'zero-', 'missing-mean-', 'zero-or-missing-mean-', 'first'}),
+                                   (var_ev, l2, {'zero-', 'missing-var-', 'missing-mean-', 'zero-or-missing-mean-', 'first'})):
+            for e in evs_:
+                for g in e.guards:
+                    k_ = cond_kind(g, lp_)
+                    if k_ in allowed:
+                        continue
+                    if k_ == 'other' and not (g.rf is not None and g.rf.mentions(lambda a: a.head == 'elem')):
+                        raise AnalysisError('an accumulation runs under a condition this rule does not read: %s' % g.text())
                     oks = False
+                    odd.append('%s under %s' % (unparse(e.node)[:40], g.text()))
         R.check('5.skip', 'GUARD', site, 'only ranks with zero weight are skipped; the between-rank term c_i (m_i - m)^2 does not depend on the rank having a variance', oks,
-                key=str([[g.text() for g in e.guards] for e in skips]),
-                detail=str([[g.text() for g in e.guards] for e in skips]), loc=f.loc())
+                key=str(odd or [[g.text() for g in e.guards] for e in skips]),
+                detail=str(odd or [[g.text() for g in e.guards] for e in skips]), loc=f.loc())
     # compute_error feeds OnlineVariance with the yielded weight
     site = SM + '::SimpleForwardModel.compute_error'
     with R.guard('5.feed', 'ARG', site, 'compute_error'):
